@@ -8,6 +8,7 @@ from .common import (
     check_tag_control_dependence,
     check_inside_scheme_traits,
     TAG_CONSTS,
+    check_tag_table,
     where,
 )
 from . import constructions as K
@@ -27,28 +28,7 @@ RULE = "E1 constant table (exhaustive pairwise distinctness + IETF equality); E2
 def run(ctx):
     P = ctx.P
     pinned = spec("pinned.json")
-    consts = collect_constants(P)
-    # 1. tag table
-    tags = [c for c in consts if c["name"] in ("DST", "SIG_DST", "POP_DST", "ENC_DST") or c["name"].endswith("SALT")]
-    ctx.floor("E1", "tag/salt constants", len(tags), 15)
-    seen = {}
-    for a, b in combinations(tags, 2):
-        ctx.ob(
-            "E1.distinct",
-            "%s<>%s" % (a["id"], b["id"]),
-            a["hex"] != b["hex"],
-            "constants `%s` and `%s` are %s" % (a["id"], b["id"], "distinct" if a["hex"] != b["hex"] else "EQUAL (%r)" % a["str"]),
-        )
-    ctx.extra["exhaustive"] = True
-    ctx.extra["tags_enumerated"] = {c["id"]: c["str"] for c in tags}
-    for key, want in pinned["ietf_tags"].items():
-        impl, item = key.split("/")
-        tr, name = item.split("::")
-        got = [c for c in tags if c["impl"] == impl and c["trait"] == tr and c["name"] == name]
-        if not got:
-            ctx.ob("E1.ietf", key, False, "ciphersuite tag `%s` not found (missing anchor)" % key)
-            continue
-        ctx.ob("E1.ietf", key, got[0]["str"] == want, "`%s` = %r, IETF draft says %r" % (key, got[0]["str"], want))
+    check_tag_table(ctx, P)
     # 2. arm purity on all dispatch sites
     n_sites, n_arms = check_arm_purity(ctx, "E2-A", P)
     ctx.floor("E2-A", "scheme dispatch switches", n_sites, 60)
